@@ -36,6 +36,7 @@ class StackRig:
         self.loop = SimLoop(tape if sched else None, max_iters=max_iters, max_vt=max_vt)
         self.shim = TimeShim(self.loop)
         compat.patch_time(self.shim)
+        compat.patch_random(tape)
         self.log = []
         self.path = path
         self.plan = plan if plan is not None else FaultPlan(tape, False)
